@@ -248,3 +248,25 @@ mod tests {
         assert_eq!(expected, &out);
     }
 }
+
+#[cfg(feature = "verif-hooks")]
+pub(crate) mod verif_local {
+    use super::*;
+
+    /// `auto_detect_newline_style`: true = Windows.
+    pub(crate) fn auto_detect_is_windows(raw_input_text: &str) -> bool {
+        auto_detect_newline_style(raw_input_text) == EffectiveNewlineStyle::Windows
+    }
+
+    pub(crate) fn to_windows(formatted_text: &String) -> String {
+        convert_to_windows_newlines(formatted_text)
+    }
+
+    pub(crate) fn to_unix(formatted_text: &str) -> String {
+        convert_to_unix_newlines(formatted_text)
+    }
+
+    pub(crate) fn apply(newline_style: NewlineStyle, formatted_text: &mut String, raw: &str) {
+        apply_newline_style(newline_style, formatted_text, raw)
+    }
+}
